@@ -733,8 +733,13 @@ func ruleR20_4(w *World, r *Report) {
 				name   string
 			}
 			var starts []start
-			for _, arg := range g.Call.Args {
+			for ai, arg := range g.Call.Args {
 				if mk, ok := arg.(*ssa.MakeChan); ok {
+					// a channel the started function only receives from is a signal to it (`go s.displayStats(end)`,
+					// closed by the starter to stop it), not the channel of a producer
+					if sc := g.Call.StaticCallee(); sc != nil && ai < len(sc.Params) && onlyReceivesFrom(sc.Params[ai]) {
+						continue
+					}
 					starts = append(starts, start{mk: mk, name: w.calleeName(&g.Call)})
 				}
 			}
@@ -887,4 +892,70 @@ func fixtureR20(fw *World) []string {
 		}
 	}
 	return fails
+}
+
+// onlyReceivesFrom: every use of the channel parameter (directly or through the cell it is spilled into) is a
+// receive, alone or as a case of a select; the function has a body and uses the parameter.
+func onlyReceivesFrom(p *ssa.Parameter) bool {
+	if p.Parent() == nil || len(p.Parent().Blocks) == 0 || p.Referrers() == nil {
+		return false
+	}
+	uses := 0
+	var check func(v ssa.Value, depth int) bool
+	check = func(v ssa.Value, depth int) bool {
+		refs := v.Referrers()
+		if refs == nil || depth > 3 {
+			return false
+		}
+		for _, ref := range *refs {
+			switch x := ref.(type) {
+			case *ssa.DebugRef:
+			case *ssa.UnOp:
+				switch {
+				case x.Op == token.ARROW && x.X == v:
+					uses++
+				case x.Op == token.MUL && x.X == v:
+					if !check(x, depth+1) {
+						return false
+					}
+				default:
+					return false
+				}
+			case *ssa.Select:
+				for _, st := range x.States {
+					if st.Chan == v {
+						if st.Dir != types.RecvOnly {
+							return false
+						}
+						uses++
+					}
+				}
+			case *ssa.Store:
+				// spilled into a local cell (captured by a function literal or addressed)
+				al, ok := x.Addr.(*ssa.Alloc)
+				if !ok || x.Val != v {
+					return false
+				}
+				for _, r2 := range *al.Referrers() {
+					switch y := r2.(type) {
+					case *ssa.Store:
+						if y != x {
+							return false
+						}
+					case *ssa.UnOp:
+						if y.Op != token.MUL || !check(y, depth+1) {
+							return false
+						}
+					case *ssa.DebugRef:
+					default:
+						return false
+					}
+				}
+			default:
+				return false
+			}
+		}
+		return true
+	}
+	return check(p, 0) && uses > 0
 }
